@@ -17,8 +17,8 @@ RULE = ("real TransitSender/TransitReceiver negotiate over SimNet, then record s
         "(for tamper cases) the altered frame was fed to the receiver; distinct = (op, field, index, "
         "direction, reader mode, record sizes).")
 ASSUMPTIONS = ["SimNet fidelity", "sizes <= 300 kB, <= 40 records per direction"]
-FLOORS = {"quick": {"records_surfaced": 5000, "tampers_fed": 200, "clean_complete": 200, "idle_sessions": 50, "reads_issued_on_dropped_connection": 300, "reads_given_up": 150, "reads_reissued_from_errback": 150, "false_consumers": 40, "consumers_attached_after_close": 150},
-          "thorough": {"records_surfaced": 140000, "tampers_fed": 2500, "clean_complete": 5000, "idle_sessions": 1300, "reads_issued_on_dropped_connection": 4000, "reads_given_up": 2500, "reads_reissued_from_errback": 2500, "false_consumers": 800, "consumers_attached_after_close": 2500}}
+FLOORS = {"quick": {"consumers_detached_by_the_application_while_paused": 5, "records_surfaced": 5000, "tampers_fed": 200, "clean_complete": 200, "idle_sessions": 50, "reads_issued_on_dropped_connection": 300, "reads_given_up": 150, "reads_reissued_from_errback": 150, "false_consumers": 40, "consumers_attached_after_close": 150},
+          "thorough": {"consumers_detached_by_the_application_while_paused": 100, "records_surfaced": 140000, "tampers_fed": 2500, "clean_complete": 5000, "idle_sessions": 1300, "reads_issued_on_dropped_connection": 4000, "reads_given_up": 2500, "reads_reissued_from_errback": 2500, "false_consumers": 800, "consumers_attached_after_close": 2500}}
 SIZES = [0, 1, 4, 24, 40, 100, 1000, 65535, 65536, 65537]
 OPS = [("flip", "length"), ("flip", "nonce"), ("flip", "tag"), ("flip", "body"), ("delete", None),
        ("swap", None), ("replay", None), ("truncate", None), ("inject", None), ("reflect", None)]
@@ -144,6 +144,9 @@ def run_case(spec):
         elif modes[d] in ("consumer", "file"):
             attach_consumer(d)
 
+    detach_budget = [1, 1]
+    detached = [False, False]
+
     class Drv:
         def actions(self_):
             acts = []
@@ -163,6 +166,18 @@ def run_case(spec):
                     acts.append((("app", "read-timeout", d), gu))
                 if isinstance(consumers[d], TransportLikeConsumer) and consumers[d].paused:
                     acts.append((("app", "consumer-drained", d), consumers[d].drained))
+                    if detach_budget[d] > 0 and modes[d] == "consumer" and partial[d] is None and conns[1 - d]._consumer is consumers[d] \
+                            and len(consumers[d].writes) < len(plans[d]):
+                        # an application that takes its consumer away itself (the download was cancelled, the rest is handled
+                        # record by record) - while that consumer happens to have the connection paused
+                        def det(d=d):
+                            detach_budget[d] = 0
+                            detached[d] = True
+                            consumer_d[d] = None          # (the library forgets the Deferred of a consumer the application detached)
+                            conns[1 - d].disconnectConsumer()
+                        acts.append((("app", "manual-detach", d), det))
+                if detached[d] and len(readers[d].got) + readers[d].pending + len(readers[d].errors) + len(consumers[d].writes) < len(plans[d]):
+                    acts.append((("app", "read-after-detach", d), readers[d].read))
                 if modes[d] == "consumer-late" and consumers[d] is None and sent[d] >= len(plans[d]) // 2:
                     acts.append((("app", "attach", d), lambda d=d: attach_consumer(d)))
             return acts
@@ -311,7 +326,7 @@ def run_case(spec):
     return {"violations": viol, "nontrivial": nontrivial,
             "counters": {"records_surfaced": total_surfaced, "tampers_fed": tampers_fed,
                          "clean_complete": int(clean and not viol), "idle_sessions": idled, "reads_given_up": readers[0].given_up + readers[1].given_up, "consumers_attached_after_close": len(late_attach), "zero_length_consumers": zero_consumers[0],
-                         "reads_reissued_from_errback": readers[0].retried + readers[1].retried, "false_consumers": sum(isinstance(c, QueueLikeConsumer) for c in consumers), "consumer_pauses_in_write": sum(c.pauses for c in consumers if isinstance(c, TransportLikeConsumer)), "reads_issued_on_dropped_connection": sum(len(plans[d]) for d in (0, 1) if modes[d] == "late" and not getattr(conns[1 - d].transport, "connected", 1)) if tamper else 0, "partial_consumers": sum(1 for x in partial if x is not None), "records_sent": sent[0] + sent[1],
+                         "reads_reissued_from_errback": readers[0].retried + readers[1].retried, "false_consumers": sum(isinstance(c, QueueLikeConsumer) for c in consumers), "consumers_detached_by_the_application_while_paused": int(detached[0]) + int(detached[1]), "consumer_pauses_in_write": sum(c.pauses for c in consumers if isinstance(c, TransportLikeConsumer)), "reads_issued_on_dropped_connection": sum(len(plans[d]) for d in (0, 1) if modes[d] == "late" and not getattr(conns[1 - d].transport, "connected", 1)) if tamper else 0, "partial_consumers": sum(1 for x in partial if x is not None), "records_sent": sent[0] + sent[1],
                          "bytes": sum(len(x) for p in plans for x in p), "steps": world.step,
                          **{"mode_" + m: 1 for m in modes}},
             "sample": {"spec": spec, "modes": modes, "sizes0": [len(x) for x in plans[0]][:12], "sizes1": [len(x) for x in plans[1]][:12],
